@@ -294,7 +294,76 @@ fn new_engine() -> Engine {
     engine
 }
 
-fn build_world(nwl: usize, prog: &str) -> World {
+/// Channel outputs recorded for the commit with worldline tick `i` under the case's `outs` mask (bit i mod 16).
+fn outputs_for(mask: u64, i: u64) -> Vec<(warp_core::TypeId, Vec<u8>)> {
+    if (mask >> (i % 16)) & 1 == 1 {
+        vec![(warp_core::materialization::make_channel_id(&format!("vf/ch{}", i % 2)), vec![0xA0, i as u8])]
+    } else {
+        Vec::new()
+    }
+}
+
+fn mat_str(state: &WorldlineState) -> String {
+    let v: Vec<String> = state
+        .last_materialization()
+        .iter()
+        .map(|c| format!("{}:{}", hex::encode(c.channel.0), tohex(&c.data)))
+        .collect();
+    format!("{};errs={}", v.join(","), state.last_materialization_errors().len())
+}
+
+/// `outs != 0`: the rules of this engine cannot emit, so recorded outputs are added to the REAL entries while they
+/// are re-appended (append_local_commit validates them) into a second ProvenanceService: emitting and silent ticks
+/// as the mask says.  The recorded truth for tick t then is the live state of tick t with last_materialization =
+/// the outputs recorded by entry t-1.
+fn build_world(nwl: usize, prog: &str, outs: u64) -> World {
+    let mut world = build_world_live(nwl, prog);
+    if outs == 0 {
+        return world;
+    }
+    let mut prov = ProvenanceService::new();
+    for (w, id) in world.wls.iter().enumerate() {
+        prov.register_worldline(*id, &world.live[w][0]).expect("register mirror");
+    }
+    for (w, id) in world.wls.iter().enumerate() {
+        let n = world.live[w].len() - 1;
+        for t in 0..n {
+            let mut e = world.provenance.entry(*id, wt(t as u64)).expect("entry");
+            e.outputs = outputs_for(outs, t as u64);
+            if let Err(err) = prov.append_local_commit(e) {
+                world.flags.push(format!("outputs-mirror-append-rejected@{t}:{}", hist_err(&err)));
+            }
+        }
+    }
+    for (w, id) in world.wls.iter().enumerate() {
+        let base = world.live[w][0].clone();
+        let n = world.live[w].len() - 1;
+        for t in 1..=n {
+            match prov.replay_worldline_state_at(*id, &base, wt(t as u64)) {
+                Ok(d) => {
+                    let lv = &world.live[w][t];
+                    if d.state_root() != lv.state_root() || graph_fp(&d) != graph_fp(lv) || hist_str(&d) != hist_str(lv) {
+                        world.flags.push(format!("direct-replay-differs-from-live@{t}"));
+                    }
+                    // independent of finalize_replay_metadata: the outputs the entry itself records
+                    let want: Vec<String> = outputs_for(outs, t as u64 - 1)
+                        .iter()
+                        .map(|(c, data)| format!("{}:{}", hex::encode(c.0), tohex(data)))
+                        .collect();
+                    if mat_str(&d) != format!("{};errs=0", want.join(",")) {
+                        world.flags.push(format!("direct-replay-materialization-differs-from-recorded-outputs@{t}"));
+                    }
+                    world.live[w][t] = d;
+                }
+                Err(e) => world.flags.push(format!("direct-replay-failed@{t}:{}", replay_err(&e))),
+            }
+        }
+    }
+    world.provenance = prov;
+    world
+}
+
+fn build_world_live(nwl: usize, prog: &str) -> World {
     let mut runtime = WorldlineRuntime::new();
     let mut engine = new_engine();
     let mut wls = Vec::new();
@@ -410,7 +479,7 @@ fn graph_fp(state: &WorldlineState) -> String {
 
 /// Everything replay is supposed to reconstruct besides the graph: tick history artifacts, last snapshot,
 /// last materialization.
-fn meta_str(state: &WorldlineState) -> String {
+fn hist_str(state: &WorldlineState) -> String {
     let mut s = String::new();
     for (snap, receipt, patch) in state.tick_history() {
         s.push_str(&format!(
@@ -430,11 +499,11 @@ fn meta_str(state: &WorldlineState) -> String {
         ));
     }
     s.push_str(&format!(" last={:?}", state.last_snapshot().map(|x| hex::encode(x.hash))));
-    for c in state.last_materialization() {
-        s.push_str(&format!(" mat={}:{}", hex::encode(c.channel.0), tohex(&c.data)));
-    }
-    s.push_str(&format!(" errs={}", state.last_materialization_errors().len()));
     s
+}
+
+fn meta_str(state: &WorldlineState) -> String {
+    format!("{} mat={}", hist_str(state), mat_str(state))
 }
 
 // ------------------------------------------------------------------------------------------- tampering store
@@ -621,6 +690,10 @@ struct Ctx<'a> {
     fps: BTreeMap<String, usize>,
     commits: Vec<Hash>,
     unknown: BTreeMap<String, String>,
+    /// fresh direct replay of ticks 0..t from U0 on the untampered, checkpoint-free store
+    direct: Vec<Option<WorldlineState>>,
+    /// scratch copy of the untampered store: every reached state must be acceptable as a checkpoint of its tick
+    scratch: std::cell::RefCell<ProvenanceService>,
 }
 
 impl<'a> Ctx<'a> {
@@ -633,7 +706,10 @@ impl<'a> Ctx<'a> {
         let commits = (0..n)
             .map(|t| world.provenance.entry(world.wls[w], wt(t as u64)).expect("entry").expected.commit_hash)
             .collect();
-        Ctx { w, world, fps, commits, unknown: BTreeMap::new() }
+        let direct = (0..=n)
+            .map(|t| world.provenance.replay_worldline_state_at(world.wls[w], &world.live[w][0], wt(t as u64)).ok())
+            .collect();
+        Ctx { w, world, fps, commits, unknown: BTreeMap::new(), direct, scratch: std::cell::RefCell::new(world.provenance.clone()) }
     }
     fn n(&self) -> usize {
         self.world.live[self.w].len() - 1
@@ -665,14 +741,31 @@ impl<'a> Ctx<'a> {
             },
         }
     }
+    /// last materialization label: 0 = empty, i+1 = exactly the outputs recorded by entry i, x = anything else
+    fn mat_label(&self, st: &WorldlineState) -> String {
+        if st.last_materialization().is_empty() {
+            return "0".into();
+        }
+        let have: Vec<(warp_core::TypeId, Vec<u8>)> =
+            st.last_materialization().iter().map(|c| (c.channel, c.data.clone())).collect();
+        for i in 0..self.n() {
+            if let Ok(e) = self.world.provenance.entry(self.wl(), wt(i as u64)) {
+                if !e.outputs.is_empty() && e.outputs == have {
+                    return format!("{}", i + 1);
+                }
+            }
+        }
+        "x".into()
+    }
     fn cursor_str(&mut self, c: &PlaybackCursor) -> String {
         let st = c.materialized_state().clone();
         format!(
-            "t{},s{},h{},l{},m{}",
+            "t{},s{},h{},l{},o{},m{}",
             c.current_tick().as_u64(),
             self.sid(&st),
             st.tick_history().len(),
             self.last_label(&st),
+            self.mat_label(&st),
             mode_str(c.mode)
         )
     }
@@ -689,11 +782,33 @@ impl<'a> Ctx<'a> {
         } else if graph_fp(st) != graph_fp(lv) {
             flags.push(format!("{what}:graph-differs-from-live-same-root"));
         }
-        if meta_str(st) != meta_str(lv) {
+        if hist_str(st) != hist_str(lv) {
             flags.push(format!("{what}:replay-metadata-differs-from-live"));
+        }
+        if mat_str(st) != mat_str(lv) {
+            flags.push(format!("{what}:last-materialization-differs-from-recorded"));
         }
         if st.current_tick().as_u64() != tick {
             flags.push(format!("{what}:state-tick-differs-from-cursor-tick"));
+        }
+        // path independence proper: equal to a fresh direct replay of ticks 0..t from U0 (untampered store)
+        match &self.direct[t] {
+            Some(d) => {
+                if st.state_root() != d.state_root() || graph_fp(st) != graph_fp(d) {
+                    flags.push(format!("{what}:state-differs-from-direct-replay"));
+                }
+                if hist_str(st) != hist_str(d) {
+                    flags.push(format!("{what}:replay-metadata-differs-from-direct-replay"));
+                }
+                if mat_str(st) != mat_str(d) {
+                    flags.push(format!("{what}:last-materialization-differs-from-direct-replay"));
+                }
+            }
+            None => flags.push(format!("{what}:direct-replay-unavailable")),
+        }
+        // tx counter, tick history, last snapshot and last materialization as add_checkpoint reads them
+        if let Err(e) = self.scratch.borrow_mut().add_checkpoint(self.wl(), ReplayCheckpoint::from_state(st)) {
+            flags.push(format!("{what}:reached-state-rejected-as-checkpoint:{}", hist_err(&e)));
         }
     }
 }
@@ -923,11 +1038,12 @@ fn scen_sweep(world: &World, f: &[&str], flags: &mut Vec<String>) -> String {
                 }
                 let st = cur.materialized_state().clone();
                 out.push(format!(
-                    "{r1},{r2},{},{},{},{}",
+                    "{r1},{r2},{},{},{},{},{}",
                     cur.current_tick().as_u64(),
                     ctx.sid(&st),
                     st.tick_history().len(),
-                    ctx.last_label(&st)
+                    ctx.last_label(&st),
+                    ctx.mat_label(&st)
                 ));
             }
         }
@@ -1079,7 +1195,7 @@ fn retention_posture() -> RetentionPosture {
 fn scen_diverge(nwl: usize, prog: &str, f: &[&str], flags: &mut Vec<String>) -> String {
     let w: usize = f[1].parse().unwrap_or(0);
     let k: u64 = f[2].parse().unwrap_or(0);
-    let mut world = build_world(nwl, prog);
+    let mut world = build_world(nwl, prog, 0);
     let n = world.live[w].len() - 1;
     let base = world.live[w][0].clone();
     let parent = world.wls[w];
@@ -1276,8 +1392,9 @@ fn main() {
         let nwl: usize = m.get("wls").and_then(|s| s.parse().ok()).unwrap_or(1);
         let prog = m.get("prog").cloned().unwrap_or_default();
         let scen = m.get("scen").cloned().unwrap_or_default();
+        let outs: u64 = m.get("outs").and_then(|s| u64::from_str_radix(s, 16).ok()).unwrap_or(0);
         let res = catch(move || {
-            let world = build_world(nwl, &prog);
+            let world = build_world(nwl, &prog, outs);
             let mut flags: Vec<String> = world.flags.iter().filter(|f| !f.starts_with("NOTE")).cloned().collect();
             let notes: Vec<String> = world.flags.iter().filter(|f| f.starts_with("NOTE")).cloned().collect();
             let fx: Vec<String> = (0..nwl).map(|w| facts(&world, w)).collect();
